@@ -87,3 +87,134 @@ import copy as _copy
 
 
 
+
+
+# ------------------------------------------------------------------------------------------------------------------------------
+# memoised helpers must not hand out mutable objects
+_MEMO = ("functools.lru_cache", "functools.cache")
+_ALLOC = ("numpy.zeros", "numpy.empty", "numpy.ones", "numpy.full", "numpy.array", "numpy.zeros_like", "numpy.empty_like", "numpy.ones_like",
+          "numpy.full_like", "numpy.arange", "numpy.linspace", "numpy.ma.masked_array", "numpy.ma.zeros")
+
+
+def reachable_functions(tree, entry_quals):
+    import ast
+    from ..source import FuncInfo, ClassInfo
+    seen, todo = {}, [tree.func(q) for q in entry_quals]
+    while todo:
+        fi = todo.pop()
+        if fi is None or fi.qual in seen:
+            continue
+        seen[fi.qual] = fi
+        for n in ast.walk(fi.node):
+            if isinstance(n, ast.Call):
+                try:
+                    c = tree.resolve_call(fi, n)
+                except Exception:
+                    c = None
+                if isinstance(c, FuncInfo):
+                    todo.append(c)
+                elif isinstance(c, ClassInfo):
+                    todo.append(tree.method(c, "__init__"))
+    return seen
+
+
+def check_memoised_results_immutable(run, tree, entry_quals, consequence):
+    """A function memoised with functools.lru_cache / functools.cache returns THE SAME object to every caller with equal arguments: when
+    that object is an array allocation, a list/dict/set or an instance of a package class, whatever one call writes into it is still there
+    in the next call (accumulation buffers that are never zero again, tables that grow)."""
+    import ast
+    from ..source import ClassInfo
+    fns = reachable_functions(tree, entry_quals)
+    memo = []
+    for fi in fns.values():
+        for d in fi.node.decorator_list:
+            f = d.func if isinstance(d, ast.Call) else d
+            if tree.dotted(fi.module, f) in _MEMO:
+                memo.append(fi)
+    bad = []
+    for fi in memo:
+        mutable = {}
+        for st in ast.walk(fi.node):
+            if isinstance(st, ast.Assign) and len(st.targets) == 1 and isinstance(st.targets[0], ast.Name):
+                mutable[st.targets[0].id] = st.value
+
+        def is_mutable(e, depth=0):
+            if isinstance(e, (ast.List, ast.Dict, ast.Set, ast.ListComp, ast.DictComp, ast.SetComp)):
+                return True
+            if isinstance(e, ast.Tuple):
+                return any(is_mutable(x, depth) for x in e.elts)
+            if isinstance(e, ast.Name) and e.id in mutable and depth < 4:
+                return is_mutable(mutable[e.id], depth + 1)
+            if isinstance(e, ast.Call):
+                d_ = tree.dotted(fi.module, e.func)
+                if d_ in _ALLOC:
+                    return True
+                try:
+                    c = tree.resolve_call(fi, e)
+                except Exception:
+                    c = None
+                if isinstance(c, ClassInfo):
+                    return True
+            return False
+        for n in ast.walk(fi.node):
+            if isinstance(n, ast.Return) and n.value is not None and is_mutable(n.value):
+                bad.append((fi, n))
+                break
+    # ... and is written to (or handed on to the user) by a caller: a memoised read-only table is fine
+    def written_params(callee):
+        out = set()
+        for n in ast.walk(callee.node):
+            tg = []
+            if isinstance(n, ast.Assign):
+                tg = n.targets
+            elif isinstance(n, ast.AugAssign):
+                tg = [n.target]
+            for t in tg:
+                while isinstance(t, (ast.Subscript, ast.Attribute)):
+                    if isinstance(t.value, ast.Name):
+                        out.add(t.value.id)
+                    t = t.value
+                if isinstance(n, ast.AugAssign) and isinstance(n.target, ast.Name):
+                    out.add(n.target.id)
+        return out
+
+    def misused(memo_fi):
+        for caller in fns.values():
+            names = set()
+            for st in ast.walk(caller.node):
+                if isinstance(st, ast.Assign) and isinstance(st.value, ast.Call) and tree.resolve_call(caller, st.value) is memo_fi:
+                    for t in st.targets:
+                        for x in ast.walk(t):
+                            if isinstance(x, ast.Name):
+                                names.add(x.id)
+                elif isinstance(st, ast.Return) and isinstance(st.value, ast.Call) and tree.resolve_call(caller, st.value) is memo_fi:
+                    return "%s returns it to its caller" % caller.name
+            if not names:
+                continue
+            if names & written_params(caller):
+                return "%s writes into it" % caller.name
+            for n in ast.walk(caller.node):
+                if isinstance(n, ast.Return) and n.value is not None and any(isinstance(x, ast.Name) and x.id in names for x in ast.walk(n.value)):
+                    return "%s returns it" % caller.name
+                if isinstance(n, ast.Call):
+                    c = tree.resolve_call(caller, n)
+                    if isinstance(c, FuncInfo):
+                        params = [a.arg for a in c.node.args.posonlyargs + c.node.args.args]
+                        wp = written_params(c)
+                        for i, a in enumerate(n.args):
+                            if isinstance(a, ast.Name) and a.id in names and i < len(params) and params[i] in wp:
+                                return "%s hands it to %s, which writes into its parameter %s" % (caller.name, c.name, params[i])
+                        for k in n.keywords:
+                            if isinstance(k.value, ast.Name) and k.value.id in names and k.arg in wp:
+                                return "%s hands it to %s, which writes into its parameter %s" % (caller.name, c.name, k.arg)
+        return None
+    from ..source import FuncInfo
+    bad = [(fi, n, misused(fi)) for fi, n in bad]
+    bad = [(fi, n) for fi, n, why in bad if why]
+    for fi, n in bad:
+        run.violated("%s::memoised-function-returns-a-mutable-object" % fi.qual, fi.where(n),
+                     "`%s` is memoised (lru_cache / cache) and returns an array allocation / container / object that its caller writes into or returns: every call with equal arguments gets the same "
+                     "object back, still holding what the previous call wrote into it" % fi.name, consequence)
+    if not bad:
+        run.holds("memoised-helpers-return-immutable-values[%s]" % ", ".join(q.split("::")[-1] for q in entry_quals), "src/osyris",
+                  "%d functions reachable, %d memoised, none returns an allocation / container / object" % (len(fns), len(memo)), nontrivial=False)
